@@ -12,7 +12,7 @@ From ClapModel Require Import Derive.DeriveCmd Derive.DeriveArgs Derive.DerivePa
 From ClapModel Require Import Parse.Validator ParseProofs.Relations ParseProofs.ValidateTotal Derive.DerivePost Derive.DerivePostEx.
 From ClapModel Require Import ParseProofs.Dispatch Derive.LoopInv Derive.DeriveFlat Derive.DeriveTotal Derive.DeriveTotalEx.
 From ClapModel Require Import ParseProofs.KindSound Derive.DeriveUpdateLine Derive.DeriveUpdateLineEx Derive.DeriveDec Derive.DeriveKeys Derive.DerivePos.
-From ClapModel Require Import Derive.DeriveEnum Derive.DeriveEnumField Derive.DeriveEnumEx Derive.DeriveAbsent Derive.DeriveOptBool Derive.DeriveOptFlatten.
+From ClapModel Require Import Derive.DeriveEnum Derive.DeriveEnumField Derive.DeriveEnumEx Derive.DeriveAbsent Derive.DeriveOptBool Derive.DeriveOptFlatten Derive.DeriveEnumPos.
 From Coq Require Import ZArith List.
 Import ListNotations.
 Open Scope N_scope.
@@ -1036,3 +1036,31 @@ Proof.
   split; [exact H7|]. split; [exact OptFlattenEx.ex_in_place|exact OptFlattenEx.ex_none_arm].
 Qed.
 Print Assumptions C15_update_optflatten_nonvacuous.
+
+(** * Round 5 (1, continued): the round trip for POSITIONAL enum-typed fields (Derive/DeriveEnumPos.v) *)
+
+(** [E], [Option<E>] and a last [Vec<E>] as positionals: [derived_parse d (bin :: print d v) = PValue v] through the real
+    [EnumValueParser]; instance of [C15_roundtrip_parse_positional] with [ok_nodes] derived from [enum_field]. *)
+Theorem C15_roundtrip_parse_enum_positional : forall d bin vs argv,
+  fields_only (d_nodes d) = true -> Forall pos_field (fields_of (d_nodes d)) -> NoDup (map f_id (fields_of (d_nodes d))) ->
+  vec_last (fields_of (d_nodes d)) = true -> Forall enum_field (fields_of (d_nodes d)) ->
+  pos_prefix (fields_of (d_nodes d)) vs -> pos_fits (fields_of (d_nodes d)) vs ->
+  valid (UnparseTree.with_bin (derive_cmd d) bin) = true -> print d vs = Some argv ->
+  derived_parse d (bin :: argv) = PValue vs.
+Proof. exact roundtrip_parse_enum_positional. Qed.
+Print Assumptions C15_roundtrip_parse_enum_positional.
+
+(** Non-vacuity: [{ p: Delta (the hidden variant), q: Some(Alpha), r: [Delta, Delta] }] = [-- delta alpha delta delta]. *)
+Theorem C15_roundtrip_parse_enum_positional_nonvacuous :
+  Forall pos_field (fields_of (d_nodes EnumPosEx.d)) /\ NoDup (map f_id (fields_of (d_nodes EnumPosEx.d)))
+  /\ vec_last (fields_of (d_nodes EnumPosEx.d)) = true /\ Forall enum_field (fields_of (d_nodes EnumPosEx.d))
+  /\ pos_prefix (fields_of (d_nodes EnumPosEx.d)) EnumPosEx.v /\ pos_fits (fields_of (d_nodes EnumPosEx.d)) EnumPosEx.v
+  /\ valid (UnparseTree.with_bin (derive_cmd EnumPosEx.d) b_prog) = true
+  /\ print EnumPosEx.d EnumPosEx.v = Some EnumPosEx.argv
+  /\ derived_parse EnumPosEx.d (b_prog :: EnumPosEx.argv) = PValue EnumPosEx.v.
+Proof.
+  split; [exact EnumPosEx.ex_class|]. split; [exact EnumPosEx.ex_nodup|]. split; [reflexivity|].
+  split; [exact EnumPosEx.ex_enum_fields|]. split; [exact EnumPosEx.ex_prefix|]. split; [exact EnumPosEx.ex_fits|].
+  split; [exact EnumPosEx.ex_valid|]. split; [exact EnumPosEx.ex_print|exact EnumPosEx.ex_roundtrip].
+Qed.
+Print Assumptions C15_roundtrip_parse_enum_positional_nonvacuous.
